@@ -361,6 +361,40 @@ func propC18(rec *ev.Recorder) func(t *rapid.T) {
 			req.A = append(req.A, jv.StrV(name))
 		}
 		c.Decorated, c.Added = decorate(t, c.Schema, c.Draft7)
+		if rapid.IntRange(0, 3).Draw(t, "dialect") == 0 && c.Decorated.K == jv.Obj {
+			// keywords of other dialects and older drafts (OpenAPI 3.0, draft-03/04/2019-09) with the
+			// values they have there: outside this vocabulary, so without any effect. Placed at the root
+			// or at a property subschema, with instances that those dialects would treat differently
+			// (null, a missing property) added at that place.
+			type dk struct {
+				k string
+				v *jv.V
+			}
+			pool := []dk{{"nullable", jv.BoolV(true)}, {"nullable", jv.BoolV(false)}, {"x-nullable", jv.BoolV(true)}, {"optional", jv.BoolV(true)}, {"required", nil},
+				{"discriminator", jv.ObjV(jv.Member{K: "propertyName", V: jv.StrV("a")})}, {"example", jv.NullV()}, {"xml", jv.ObjV()}, {"externalDocs", jv.ObjV()},
+				{"id", jv.StrV("http://x.test/y.json")}, {"extends", jv.ObjV(jv.Member{K: "type", V: jv.StrV("null")})}, {"disallow", jv.StrV("null")},
+				{"divisibleBy", jv.NumV("2")}, {"requires", jv.StrV("a")}, {"readonly", jv.BoolV(true)}, {"$recursiveAnchor", jv.BoolV(true)}, {"$recursiveRef", jv.StrV("#")},
+				{"exclusiveMinimumDraft4", jv.BoolV(true)}, {"strict", jv.BoolV(true)}, {"coerce", jv.BoolV(true)}, {"nullable", jv.BoolV(true)}}
+			e := pool[rapid.IntRange(0, len(pool)-1).Draw(t, "dialectkw")]
+			site := c.Decorated
+			var path []string
+			if props := c.Decorated.Get("properties"); props != nil && props.K == jv.Obj && len(props.O) > 0 && rapid.Bool().Draw(t, "dialectatprop") {
+				m := props.O[rapid.IntRange(0, len(props.O)-1).Draw(t, "dialectprop")]
+				if m.V.K == jv.Obj {
+					site, path = m.V, []string{m.K}
+				}
+			}
+			if e.v != nil && !site.Has(e.k) && !(c.Draft7 && site.Has("$ref")) {
+				site.Set(e.k, e.v)
+				c.Added = append(c.Added, e.k)
+				probe := jv.NullV()
+				if len(path) == 1 {
+					probe = jv.ObjV(jv.Member{K: path[0], V: jv.NullV()})
+				}
+				c.Instances = append(c.Instances, probe, jv.ObjV())
+				rec.Class("decoration:keyword-of-another-dialect")
+			}
+		}
 		if wantReq && c.Decorated.K == jv.Obj {
 			// aim one decoration at a property that its parent requires, and add an instance
 			// lacking exactly that property (a non-asserting keyword must not stand in for it)
